@@ -1,5 +1,5 @@
 (* FerretCore v1 — executable type checker (the rule catalogue of C03 restricted to this fragment). *)
-From Coq Require Import ZArith List Bool.
+From Coq Require Import String ZArith List Bool.
 From FV Require Import Core.Syntax.
 Import ListNotations.
 Local Open Scope Z_scope.
@@ -45,12 +45,19 @@ Fixpoint check_expr (G : tenv) (e : expr) {struct e} : tres ty :=
   match e with
   | ELit t v => if in_range t v then TOk (TInt t) else TErr ELitRange
   | EBool _ => TOk TBool
+  | EStr _ => TOk TStr
   | EVar x => match tlookup x G with Some t => TOk t | None => TErr EUndefined end
   | EBin o a b =>
       tbind (check_expr G a) (fun ta => tbind (check_expr G b) (fun tb =>
         match o with
         | And | Or => match ta, tb with TBool, TBool => TOk TBool | _, _ => TErr ENonBoolLogical end
-        | Add | Sub | Mul | Div | Mod =>
+        | Add =>
+            match ta, tb with
+            | TInt x, TInt y => if ity_eqb x y then TOk (TInt x) else TErr EMixedOperands
+            | TStr, TStr => TOk TStr
+            | _, _ => TErr EMixedOperands
+            end
+        | Sub | Mul | Div | Mod =>
             match ta, tb with
             | TInt x, TInt y => if ity_eqb x y then TOk (TInt x) else TErr EMixedOperands
             | _, _ => TErr EMixedOperands
@@ -59,6 +66,7 @@ Fixpoint check_expr (G : tenv) (e : expr) {struct e} : tres ty :=
             match ta, tb with
             | TInt x, TInt y => if ity_eqb x y then TOk TBool else TErr EMixedOperands
             | TBool, TBool => TOk TBool
+            | TStr, TStr => TOk TBool
             | _, _ => TErr EMixedOperands
             end
         | Lt | Le | Gt | Ge =>
@@ -121,7 +129,7 @@ Fixpoint check_expr (G : tenv) (e : expr) {struct e} : tres ty :=
       end
   end.
 
-Definition printable (t : ty) : bool := match t with TInt _ | TBool => true | TVoid | TStruct _ | TMutRef _ => false end.
+Definition printable (t : ty) : bool := match t with TInt _ | TBool | TStr => true | TVoid | TStruct _ | TMutRef _ => false end.
 
 (* check_stmt returns the environment after the statement *)
 Fixpoint check_stmt (ret : ty) (inloop : bool) (G : tenv) (s : stmt) {struct s} : tres tenv :=
